@@ -159,6 +159,9 @@ class Executor:
         self.stubs_used = set()
         self.base_facts = list(assumptions or [])
         self.deadline = None
+        self.merge = True
+        self.merged = 0
+        self._simple_cache = {}
 
     # ------------------------------------------------------------------ memory objects
     def new_obj(self, st, size, name, const=False, opaque=False):
@@ -621,12 +624,167 @@ class Executor:
         if ff is False:
             self.goto(st, tgt_true)
             return
+        if self.merge and self.try_merge(st, work, cs, tgt_true, tgt_false):
+            return
         other = st.clone()
         other.pc.append(z3.Not(cs))
         self.goto(other, tgt_false, defer=True)
         work.append(other)
         st.pc.append(cs)
         self.goto(st, tgt_true)
+
+    PURE_OPS = {"add", "sub", "mul", "shl", "lshr", "ashr", "and", "or", "xor", "icmp", "select", "zext", "sext",
+                "trunc", "extractvalue", "insertvalue", "freeze", "bitcast", "getelementptr"}
+    PURE_INTRINSICS = ("llvm.sadd.", "llvm.ssub.", "llvm.smul.", "llvm.uadd.", "llvm.usub.", "llvm.umul.", "llvm.ctlz.",
+                       "llvm.cttz.", "llvm.ctpop.", "llvm.smax.", "llvm.smin.", "llvm.umax.", "llvm.umin.", "llvm.abs.",
+                       "llvm.fshl.", "llvm.fshr.", "llvm.bswap.", "llvm.lifetime.", "llvm.expect.")
+
+    def trap_kind(self, fn, name):
+        """ubsantrap-only block -> kind string, else None"""
+        blk = fn.blocks[name]
+        if len(blk.instrs) == 2 and blk.instrs[0].op == "call" and blk.instrs[1].op == "unreachable":
+            cal = blk.instrs[0].x["callee"]
+            if cal.k == "global" and cal.v == "llvm.ubsantrap":
+                k = blk.instrs[0].ops[0].v
+                return UBSAN_KINDS.get(k, "ubsan_%d" % k)
+        return None
+
+    def pure_instr(self, ins):
+        if ins.op in self.PURE_OPS:
+            return True
+        return ins.op == "call" and ins.x["callee"].k == "global" and ins.x["callee"].v.startswith(self.PURE_INTRINSICS)
+
+    def arm_shape(self, fn, start, limit=6):
+        """follow a chain of pure blocks whose only conditional branches guard ubsantrap blocks.
+        -> (join block reached by the final unconditional branch, list of block names) or None"""
+        key = (fn.name, start)
+        if key in self._simple_cache:
+            return self._simple_cache[key]
+        chain = []
+        cur = start
+        res = None
+        while len(chain) < limit:
+            blk = fn.blocks[cur]
+            if any(i.op == "phi" for i in blk.instrs) and chain:
+                # a block with phis inside a chain is itself a join candidate
+                res = (cur, list(chain))
+                break
+            if not all(self.pure_instr(i) for i in blk.instrs[:-1]) or len(blk.instrs) > 40:
+                break
+            if any(i.op == "phi" for i in blk.instrs):
+                break
+            chain.append(cur)
+            last = blk.instrs[-1]
+            if last.op != "br":
+                break
+            t = last.x["targets"]
+            if len(t) == 1:
+                nxt = t[0]
+                if any(i.op == "phi" for i in fn.blocks[nxt].instrs) or not self._single_chain(fn, nxt):
+                    res = (nxt, list(chain))
+                    break
+                cur = nxt
+                continue
+            tk0, tk1 = self.trap_kind(fn, t[0]), self.trap_kind(fn, t[1])
+            if tk0 is None and tk1 is None:
+                break
+            if tk0 is not None and tk1 is not None:
+                break
+            cur = t[1] if tk0 is not None else t[0]
+        self._simple_cache[key] = res
+        return res
+
+    def _single_chain(self, fn, name):
+        return False
+
+    def run_arm(self, st, work, fn, chain, armcond):
+        """execute the blocks of an arm speculatively; trap exits become UB paths guarded by armcond.
+        returns (last block name, list of extra exclusion facts)"""
+        excl = []
+        fr = st.frames[-1]
+        for bi, bname in enumerate(chain):
+            blk = fn.blocks[bname]
+            for ins in blk.instrs[:-1]:
+                self.step(st, work, ins)
+            last = blk.instrs[-1]
+            t = last.x["targets"]
+            if len(t) == 2:
+                c = self.ev(st, last.ops[0])
+                tk0 = self.trap_kind(fn, t[0])
+                kind = tk0 if tk0 is not None else self.trap_kind(fn, t[1])
+                trapc = c if tk0 is not None else b_not(c)
+                if trapc is False:
+                    continue
+                full = b_and(armcond, trapc)
+                fz = z3.simplify(zb(full))
+                if z3.is_false(fz):
+                    continue
+                feas = self.feasible(st, fz)
+                if feas is not False:
+                    self.paths.append(Path(st.pc + [fz], "UB", kind, None, list(st.notes), list(st.msgs)))
+                    excl.append(z3.Not(fz))
+        return chain[-1], excl
+
+    def try_merge(self, st, work, cs, tA, tB):
+        """if-conversion of diamonds/triangles whose arms are pure (apart from guarded ubsantrap exits):
+        execute both arms speculatively and merge the join's phis with ite"""
+        fr = st.frames[-1]
+        fn = fr.fn
+        cur = fr.block
+        if tA == tB:
+            return False
+        sA, sB = self.arm_shape(fn, tA), self.arm_shape(fn, tB)
+        if sA is not None and sB is not None and sA[0] == sB[0]:
+            join, arms = sA[0], (sA[1], sB[1])
+        elif sA is not None and sA[0] == tB:
+            join, arms = tB, (sA[1], None)
+        elif sB is not None and sB[0] == tA:
+            join, arms = tA, (None, sB[1])
+        else:
+            return False
+        jblk = fn.blocks[join]
+        saved = (fr.block, fr.prev, fr.idx, dict(fr.locals), len(self.paths), list(st.pc))
+        preds = []
+        excl = []
+        try:
+            for arm, ac in zip(arms, (cs, z3.Not(cs))):
+                if arm is None:
+                    preds.append(cur)
+                    continue
+                lastb, ex_ = self.run_arm(st, work, fn, arm, ac)
+                preds.append(lastb)
+                excl += ex_
+            vals = []
+            k = 0
+            for ins in jblk.instrs:
+                if ins.op != "phi":
+                    break
+                k += 1
+                inc = dict((lab, v) for (v, lab) in ins.x["incoming"])
+                if preds[0] not in inc or preds[1] not in inc:
+                    raise IRUnsupported("phi incoming")
+                vA = self.ev(st, inc[preds[0]])
+                vB = self.ev(st, inc[preds[1]])
+                vals.append((ins.dest, self.select(st, work, cs, vA, vB)))
+        except (PathEnd, IRUnsupported, IntUnsupported):
+            fr.block, fr.prev, fr.idx = saved[0], saved[1], saved[2]
+            fr.locals = saved[3]
+            del self.paths[saved[4]:]
+            st.pc[:] = saved[5]
+            return False
+        for dname, v in vals:
+            fr.locals[dname] = v
+        st.pc.extend(excl)
+        keyv = (len(st.frames), fn.name, join)
+        cnt = st.visits.get(keyv, 0) + 1
+        st.visits[keyv] = cnt
+        fr.prev = preds[0]
+        fr.block = join
+        fr.idx = k
+        self.merged += 1
+        if cnt > self.unwind:
+            raise PathEnd("UNWIND", "%s:%s" % (fn.name, join))
+        return True
 
     def goto(self, st, label, defer=False):
         fr = st.frames[-1]
